@@ -47,7 +47,7 @@ def gen_cases(rng, tier):
     ns = 30 if tier == "quick" else 400
     for i in range(ns):
         cases.append({"kind": "S", "cls": rng.choice(["MS", "DC"]), "N": rng.choice([1, 2, 3, 4]), "M": rng.choice([1, 2]),
-                      "order": rng.choice([1, 2, 3]), "param": rng.random() < 0.3, "form": rng.randrange(8),
+                      "order": rng.choice([1, 2, 3]), "param": rng.random() < 0.3, "form": rng.randrange(10),
                       "order2": rng.choice([1, 2, 3]), "decl": rng.choice(["wv", "vw"]), "refine": rng.choice([2, 3, 4]),
                       "late": rng.random() < 0.4,
                       "a": ocpgen.rnd(rng, -1, 1), "b": ocpgen.rnd(rng, 0.3, 2), "c": ocpgen.rnd(rng, -1.5, 1.5),
@@ -71,7 +71,12 @@ def s_expr(form, x, w, v, t, c, ca):
         return w * x + ca.sin(v)
     if form == 6:
         return ca.vertcat(v * w, c * v + x)
-    return ca.sin(w) * ca.cos(v) + c * t * x
+    if form == 7:
+        return ca.sin(w) * ca.cos(v) + c * t * x
+    # forms 8, 9: the expression mentions a derivative of the signal itself (dw is passed in place of v)
+    if form == 8:
+        return x * v + c * w
+    return v ** 2 + c * x * w
 
 
 def run_S(case):
@@ -83,7 +88,10 @@ def run_S(case):
     from ..obs import nlp
     from ..ref import grids as G
     from .c17 import design, spline_eval
-    two = case["form"] >= 4
+    own_der = case["form"] >= 8          # e mentions der(w) itself
+    two = 4 <= case["form"] <= 7
+    if own_der:
+        case = dict(case, order=max(case["order"], 2))
     res = {"sig": "S|%s|N%dM%d|o%d%s|%s|f%d|%s|%s" % (case["cls"], case["N"], case["M"], case["order"],
                                                       case.get("order2", "") if two else "", "p" if case["param"] else "v",
                                                       case["form"], case.get("decl", "wv") + ("-late" if case.get("late") else ""), C.grid_tag(case["grid"])),
@@ -110,8 +118,9 @@ def run_S(case):
                 v = mk(case.get("order2", 2), False)
         f = a * x + u + b * w
         ocp.set_der(x, f)
-        e = s_expr(case["form"], x, w, v if two else 0, ocp.t, c, ca)
-        late = bool(case.get("late"))
+        dw_early = C.call("der(w)", ocp.der, w) if own_der else None
+        e = s_expr(case["form"], x, w, (v if two else (dw_early if own_der else 0)), ocp.t, c, ca)
+        late = bool(case.get("late")) and not own_der
         if case["cls"] == "MS":
             ocp.method(rockit.MultipleShooting(N=N, M=M, intg="rk", grid=build.make_grid(case["grid"])))
         else:
@@ -128,7 +137,8 @@ def run_S(case):
         dw = C.call("der(w)", ocp.der, w)
         ocp.add_objective(ocp.sum(ca.sumsqr(de)))
         view = C.call("transcribe", nlp.NlpView, ocp)
-        qs = [x, u, w, dw, ocp.t, de] + ([v, dv] if two else [])
+        ddw = C.call("der(der(w))", ocp.der, dw) if own_der else None
+        qs = [x, u, w, dw, ocp.t, de] + ([v, dv] if two else ([dw, ddw] if own_der else []))
         outs = [C.call("sample", ocp.sample, q, grid="control")[1] for q in qs]
         sig_pairs = [("w", w, dw, case["order"])] + ([("v", v, dv, case.get("order2", 2))] if two else [])
         r = case.get("refine", 3)
@@ -136,16 +146,19 @@ def run_S(case):
             tt, vv = C.call("sample(refine)", ocp.sample, sg, grid="integrator", refine=r)
             _, dd = C.call("sample(der, refine)", ocp.sample, dsg, grid="integrator", refine=r)
             outs += [tt, vv, dd]
-        F = ca.Function("s", [view.x, view.p], [ca.MX(o) for o in outs])
+        # (symbols left unsubstituted in a sampled expression surface here as 'free variables')
+        F = C.call("sampled expressions as a function of the decision vector", ca.Function, "s", [view.x, view.p],
+                   [ca.MX(o) for o in outs])
     except C.RockitRaised as ex:
         res["violations"].append(C.exc_violation(ID, ex, "S|" + case["cls"]))
         return res
     # independent derivative: casadi AD on our own symbols
     xs, us, ws, dws, ts, vs, dvs = [ca.MX.sym(n) for n in ("x", "u", "w", "dw", "t", "v", "dv")]
-    es = s_expr(case["form"], xs, ws, vs if two else 0, ts, c, ca)
+    es = s_expr(case["form"], xs, ws, vs if (two or own_der) else 0, ts, c, ca)
     fs = a * xs + us + b * ws
     ref = ca.jacobian(es, xs) @ fs + ca.jacobian(es, ws) @ dws + ca.jacobian(es, ts)
-    if two:
+    if two or own_der:
+        # (own_der: vs stands for der(w) and dvs for der(der(w)))
         ref = ref + ca.jacobian(es, vs) @ dvs
     R = ca.Function("r", [xs, us, ws, dws, ts, vs, dvs], [ref])
     nrm = np.array(G.normalized(case["grid"], N))
@@ -156,8 +169,10 @@ def run_S(case):
         X, U, W, DW, Tt = [q.reshape(-1) for q in vals[:5]]
         DE = vals[5]
         DE = DE.reshape(-1, len(Tt)) if DE.size != len(Tt) else DE.reshape(1, -1)
-        V_, DV_ = (vals[6].reshape(-1), vals[7].reshape(-1)) if two else (np.zeros(len(Tt)), np.zeros(len(Tt)))
+        V_, DV_ = (vals[6].reshape(-1), vals[7].reshape(-1)) if (two or own_der) else (np.zeros(len(Tt)), np.zeros(len(Tt)))
         min_order = min([case["order"]] + ([case.get("order2", 2)] if two else []))
+        if own_der and case["order"] == 2:
+            min_order = 1          # der(der(w)) of a degree-2 spline jumps at interior knots
         for k in range(len(Tt)):
             if min_order == 1 and 0 < k < len(Tt) - 1:
                 continue       # the derivative of a degree-1 spline is discontinuous at interior knots
@@ -176,7 +191,7 @@ def run_S(case):
                                                                    C.short(got), C.short(want))})
                 return res
         # der(signal) on the refined integrator grid
-        off = 8 if two else 6
+        off = 8 if (two or own_der) else 6
         for j, (nm, _sg, _dsg, od) in enumerate(sig_pairs):
             tt, vv, dd = [q.reshape(-1) for q in vals[off + 3 * j: off + 3 * j + 3]]
             tt_c = np.clip(tt, xi_phys[0], xi_phys[-1])
